@@ -48,5 +48,7 @@ def dump_nodes(holder):
 
 def scratch_dir():
     import tempfile
-    base = "/dev/shm" if os.path.isdir("/dev/shm") else None
+    base = os.environ.get("VERIF_SCRATCH")
+    if not base or not os.path.isdir(base):
+        base = "/dev/shm" if os.path.isdir("/dev/shm") else None
     return tempfile.mkdtemp(prefix="verif_", dir=base)
